@@ -76,6 +76,11 @@ def _store_stage_setup(which):
         ctx.extra["entry_version"] = I.ops.as_int(I.getattr(stage, "version"))
         ctx.extra["entry_status"] = I.getattr(stage, "status").t
         ctx.extra["stage_key"] = I.getattr(stage, "id").t
+        ent = entry_table("stage_executions")
+        k_ = ctx.extra["stage_key"]
+        ctx.extra["replay_rows"] = {"stage_executions": {"exists": z3.Select(ent.exists, k_), "version": z3.Select(ent.col("version"), k_),
+                                                         "status": z3.Select(ent.col("status"), k_)}}
+        ctx.extra["which"] = which
         if which == "plain":
             ctx.extra["plain"] = True
             I.st.ghost["the_conn"] = conn
@@ -200,14 +205,14 @@ def store_stage_units():
             Obl("C04/cas", _g_stage, when="any"), Obl("C06/durable-write-is-guarded", _g_stage, when="any"),
             Obl("C19/frame/store_stage", _store_stage_post, when="any")]
     out.append(Unit(prop="*", name="L1/AtomicTransaction.store_stage", func=P + "transaction:AtomicTransaction.store_stage",
-                    self_type=("obj", "AtomicTransaction"), setup=_store_stage_setup("txn"), requires=[valid_rows],
+                    self_type=("obj", "AtomicTransaction"), setup=_store_stage_setup("txn"), requires=[valid_rows], native_script="store_stage_cas.py",
                     obligations=obls + [Obl("C07/version-tracking", _staged_before_bump, when="any")], **common))
     common2 = dict(common)
     reg2 = sql_registry()
     reg2.contracts["*._get_connection"] = lambda I, a, k: I.st.ghost["the_conn"]
     common2["registry"] = reg2
     out.append(Unit(prop="*", name="L1/SqliteStageOpsMixin.store_stage", func=P + "store.stage_ops:SqliteStageOpsMixin.store_stage",
-                    self_type=("obj", "SqliteWorkflowStore"), setup=_store_stage_setup("plain"), requires=[valid_rows],
+                    self_type=("obj", "SqliteWorkflowStore"), setup=_store_stage_setup("plain"), requires=[valid_rows], native_script="store_stage_cas.py",
                     obligations=[Obl("C07/G-stage/plain", _g_stage, when="any"), Obl("C07/store_stage/plain", _store_stage_post, when="any"),
                                  Obl("C04/cas/plain", _g_stage, when="any"), Obl("C06/durable-write-is-guarded/plain", _g_stage, when="any")], **common2))
     return out
